@@ -672,8 +672,8 @@ func ParseContractFile(path string) ([]*Decl, error) {
 				if i := strings.Index(kw, "["); i >= 0 {
 					kw = kw[:i]
 				}
-				if kw != "invariant" && kw != "decreases" && kw != "assume" {
-					return nil, fmt.Errorf("%s:%d: loop clause must be invariant/decreases/assume", path, ln+1)
+				if kw != "invariant" && kw != "decreases" && kw != "assume" && kw != "maintains" {
+					return nil, fmt.Errorf("%s:%d: loop clause must be invariant/decreases/assume/maintains", path, ln+1)
 				}
 				c.Kind = "loop-" + kw
 				c.Label, c.Text = splitLabel(after[len(kw):])
@@ -704,7 +704,7 @@ func ParseContractFile(path string) ([]*Decl, error) {
 			d.Body = e
 		}
 		for _, c := range d.Clauses {
-			if exprClauses[c.Kind] || c.Kind == "loop-invariant" || c.Kind == "loop-decreases" || c.Kind == "loop-assume" {
+			if exprClauses[c.Kind] || c.Kind == "loop-invariant" || c.Kind == "loop-decreases" || c.Kind == "loop-assume" || c.Kind == "loop-maintains" {
 				e, err := ParseExpr(c.Text)
 				if err != nil {
 					return nil, fmt.Errorf("%s:%d: %v", c.File, c.Line, err)
